@@ -3,6 +3,7 @@ import VotelibDriver.C01
 import VotelibDriver.C02
 import VotelibDriver.C16
 import VotelibDriver.C13
+import VotelibDriver.C05
 import VotelibModel.ScaleFamilies
 open Lean
 namespace VL.Drv.C11
@@ -12,6 +13,10 @@ open VL VL.Convert
     equally valued winners, which in Python depends on set iteration order) -/
 def withKeys (sel : List Slot) (keys : Votes) : Json :=
   Json.mkObj [("sel", slotsJson sel), ("keys", votesJson keys)]
+
+/-- equality of two pairwise dictionaries as maps (keys are distinct in both) -/
+def sameMap (a b : Condorcet.Pairwise) : Bool :=
+  a.length == b.length && a.all (fun e => b.contains e)
 
 /-- the composite families of harness/families.py (`VotelibModel.ScaleFamilies`) -/
 def handleOwn (op : String) (j : Json) : Option (Except String Json) :=
@@ -32,11 +37,33 @@ def handleOwn (op : String) (j : Json) : Option (Except String Json) :=
     | .ok keys, .ok sel => pure (withKeys sel keys)
     | _, .error e => pure (errJson e)
     | .error e, _ => pure (errJson e)
+  | "c11_condorcet" => some do
+    -- ranked profile (scaled) + the pairwise dictionary the real converter made of it (insertion order kept)
+    let p ← C05.getProfile j "profile"
+    let v ← C06.getPairwise j "votes"
+    let name ← j.getObjValAs? String "name"
+    if !sameMap (Condorcet.rankedToCondorcet p) v then
+      throw "RankedToCondorcetVotes: the model's dictionary differs (as a map) from the implementation's"
+    match name with
+    | "winner" => pure (toJson (C11F.CondorcetSet.winner.eval v))
+    | "smith" => pure (toJson (C11F.CondorcetSet.smith.eval v))
+    | "schwartz" => pure (toJson (C11F.CondorcetSet.schwartz.eval v))
+    | _ =>
+      let n ← j.getObjValAs? Nat "n"
+      match C11F.CondorcetEv.byName name with
+      | none => throw s!"unknown evaluator {name}"
+      | some ev =>
+        match ev.eval v n with
+        | .ok res =>
+          if name = "copeland_2o" then
+            pure (Json.mkObj [("res", slotsJson res), ("grp", toJson (Condorcet.copelandGroups v n))])
+          else pure (slotsJson res)
+        | .error e => pure (errJson e)
   | _ => none
 
 /-- C11 re-uses the model handlers of the families it scales (first handler that knows the op answers) -/
 def handlers : List (String → Json → Option (Except String Json)) :=
-  [handleOwn, C09.handle, C01.handle, C02.handle, C16.handle]
+  [handleOwn, C09.handle, C01.handle, C02.handle, C16.handle, C05.handle]
 
 def handle (op : String) (j : Json) : Option (Except String Json) :=
   handlers.findSome? (fun h => h op j)
